@@ -4,7 +4,7 @@ CFG = {
     "lean_exe": "lm_c09",
     "theorems": [
         "Leptos.Reactive.C09_effect_double_run_witness",
-        "Leptos.Reactive.C09_run_justified_full_false",
+        "Leptos.Reactive.C09_run_justified_full_old_false",
         "Leptos.Reactive.C09_memo_run_justified",
     ],
     "harness_pkg": "hx-c01",
@@ -19,13 +19,15 @@ CFG = {
     "assumptions": ["Effect::new only (watch / RenderEffect / ImmediateEffect share EffectInner but are not separately driven yet)"],
     "manifest": {
         "category": "proof",
-        "text": "The full statement (no body ever runs unjustified, for all programs, histories and schedules) is REFUTED by a kernel-checked witness "
-                "(C09_effect_double_run_witness: m1=s, m2=s+m1, effect reads m2 then m1; one write, two runs) that replays on the real Effect — known finding F-C09-1. "
-                "The memo half is PROVED: C09_memo_run_justified - for every well-formed effect-free program with tracked reads and every history, no memo body "
-                "ever runs without a tracked input having a new version (invariant InvR + upd_ok, shared with C01). The Lean model is tied to reactive_graph by differential "
-                "correspondence of per-op run counts on generated programs; any unjustified run outside the model's class is a violation.",
+        "text": "PROVED for memos: C09_memo_run_justified - for every well-formed effect-free program with tracked reads and every history no memo body ever "
+                "runs without a tracked input having a new version (invariant InvR + big-step lemma upd_ok, shared with C01). For effects the statement was FALSE of the "
+                "code as found (kernel-checked witness C09_effect_double_run_witness: m1=s, m2=s+m1, effect reads m2 then m1; one write, two runs; replayed on the real "
+                "Effect) and the defect was REPAIRED by /repo commit 4084efd; the witness is kept as a regression theorem about the pre-repair model (runOld) and the "
+                "statement for the repaired effect scheduler (C09_run_justified_full) is OPEN: no counterexample in the correspondence runs, proof in progress. "
+                "The model is tied to reactive_graph by differential correspondence of per-op run counts on generated programs, histories and polling orders; "
+                "every real invocation is checked against the justification oracle.",
         "design_ref": "DESIGN.md §7 C09",
-        "note": "hand-written model validated by correspondence; positive theorem for memos proved, for effects refuted (partial theorem for effects pending)",
+        "note": "hand-written model validated by correspondence; theorem for memos proved; theorem for (repaired) effects open",
         "technique": "Lean 4 proof (memos) + refutation witness (effects) + differential correspondence",
     },
 }
